@@ -287,6 +287,7 @@ impl Heap {
         new.start as *mut u8
     }
 
+    #[cfg(feature = "hooks")]
     fn do_note(&mut self, kind: lean_string::verif_hooks::Note, ptr: *const u8, len: usize) {
         use lean_string::verif_hooks::Note;
         self.note_counts[kind as usize] += 1;
@@ -412,18 +413,21 @@ pub fn with<R>(f: impl FnOnce(&mut Heap) -> R) -> R {
     HEAP.with(|h| f(&mut h.borrow_mut()))
 }
 
+#[cfg(feature = "hooks")]
 unsafe fn hook_alloc(layout: Layout) -> *mut u8 {
     HEAP.with(|h| match h.try_borrow_mut() {
         Ok(mut h) => unsafe { h.do_alloc(layout) },
         Err(_) => std::ptr::null_mut(),
     })
 }
+#[cfg(feature = "hooks")]
 unsafe fn hook_realloc(ptr: *mut u8, layout: Layout, new_size: usize) -> *mut u8 {
     HEAP.with(|h| match h.try_borrow_mut() {
         Ok(mut h) => unsafe { h.do_realloc(ptr, layout, new_size) },
         Err(_) => std::ptr::null_mut(),
     })
 }
+#[cfg(feature = "hooks")]
 unsafe fn hook_dealloc(ptr: *mut u8, layout: Layout) {
     let _ = HEAP.try_with(|h| {
         if let Ok(mut h) = h.try_borrow_mut() {
@@ -431,6 +435,7 @@ unsafe fn hook_dealloc(ptr: *mut u8, layout: Layout) {
         }
     });
 }
+#[cfg(feature = "hooks")]
 fn hook_note(kind: lean_string::verif_hooks::Note, ptr: *const u8, len: usize) {
     let _ = HEAP.try_with(|h| {
         if let Ok(mut h) = h.try_borrow_mut() {
@@ -439,6 +444,7 @@ fn hook_note(kind: lean_string::verif_hooks::Note, ptr: *const u8, len: usize) {
     });
 }
 
+#[cfg(feature = "hooks")]
 static HOOKS: lean_string::verif_hooks::Hooks = lean_string::verif_hooks::Hooks {
     alloc: hook_alloc,
     realloc: hook_realloc,
@@ -448,5 +454,17 @@ static HOOKS: lean_string::verif_hooks::Hooks = lean_string::verif_hooks::Hooks 
 
 /// Installs the shadow heap for the whole process (per-thread state).
 pub fn install() {
+    #[cfg(feature = "hooks")]
     lean_string::verif_hooks::install(&HOOKS);
+}
+
+/// reference count of a handle (None when not on the heap, or when built without hooks)
+pub fn refcount_of(s: &lean_string::LeanString) -> Option<usize> {
+    #[cfg(feature = "hooks")]
+    return s.verif_refcount();
+    #[cfg(not(feature = "hooks"))]
+    {
+        let _ = s;
+        None
+    }
 }
